@@ -449,7 +449,12 @@ def collect1Core (src : Dataset) (out : List Var) : ProjItem → Except Exc (Lis
           -- the whole grid was collected before: the member is re-set in place (grid object kept)
           match mem with
           | .base b =>
-            if a.name = m then .ok out else
+            if a.name = m then
+              -- the array is the first key: re-set, it goes to the end and the first map takes its place
+              match ms with
+              | [] => .ok out
+              | m0 :: rest => .ok (out.map fun v => if v.name = n then .grid n m0 (rest ++ [b]) else v)
+            else
             .ok (out.map fun v => if v.name = n then .grid n a (setBase ms b) else v)
           | .struct _ _ => .error .unspecified
         | some _ => .error .unspecified
